@@ -29,7 +29,7 @@ def coq_files():
     return out
 
 
-def build_all(verbose=False):
+def build_all(verbose=False, race=False):
     """(Re)build everything from /repo's working tree.  Never raises: returns a status dict
     {gen, coq, coq_failed:[files], extract, harness, bin, log}."""
     os.makedirs(os.path.join(B, "ocaml"), exist_ok=True)
@@ -82,6 +82,9 @@ def build_all(verbose=False):
         r = run(["go", "build", "-o", HARNESS, "."], cwd=os.path.join(V, "harness"))
         st["harness"] = r.returncode == 0
         st["log"] += r.stderr[-3000:]
+        if race:
+            r = run(["go", "build", "-race", "-o", HARNESS + "-race", "."], cwd=os.path.join(V, "harness"))
+            st["log"] += r.stderr[-2000:]
         r = run(["go", "build", "-o", os.path.join(B, "pql-bin"), "./cmd/pql"], cwd="/repo")
         st["bin"] = r.returncode == 0
         st["log"] += r.stderr[-3000:]
@@ -174,7 +177,7 @@ def run_lines(kind, stage, lines, shards=None):
     """Run the implementation ('impl') or the model ('model') on input lines; returns output lines."""
     if not lines:
         return []
-    args = [HARNESS, "run", stage] if kind == "impl" else [DRIVER, stage]
+    args = [HARNESS, "run", stage] if kind == "impl" else ([HARNESS + "-race", "run", stage] if kind == "race" else [DRIVER, stage])
     if shards is None:
         shards = NPROC if len(lines) >= 400 else 1
     if stage == "cli":
@@ -207,6 +210,14 @@ def run_lines(kind, stage, lines, shards=None):
     if len(out) != len(lines):
         raise RuntimeError("%s %s: %d outputs for %d inputs" % (kind, stage, len(out), len(lines)))
     return out
+
+
+def _status(x):
+    w = x.split(" ", 1)[0]
+    return w if w in ("OK", "ERR", "PANIC", "HANG", "FUEL", "INTERNAL", "CRASH") else ("OK" if x != "" or True else x)
+
+
+PROJ = {"status": _status}
 
 
 def show_input(line, limit=300):
@@ -305,7 +316,7 @@ def run_check(pid, tier, seed, replay=None):
     violations = []      # (kind, replay payload, no_input_found)
     known_hits = {}
     known = load_known()
-    st = build_all()
+    st = build_all(race=bool(cfg.get("race")))
     # ---- A: proof obligations
     thms = theorems_of(pid)
     a_ok, a_msgs = True, []
@@ -368,7 +379,7 @@ def run_check(pid, tier, seed, replay=None):
             # C first on the implementation alone (it does not need the model)
             for family, ostage, nq, nt in oruns:
                 ls = inputs_for(family, nq, nt, ostage)
-                outs = run_lines("impl", ostage, ls)
+                outs = run_lines("race" if (cfg.get("race") and ostage == "oracle-C14" and os.path.exists(HARNESS + "-race")) else "impl", ostage, ls)
                 evaluations += len(ls)
                 for l, o in zip(ls, outs):
                     distinct.add((ostage, l)) if o == "ok" else None
@@ -380,10 +391,12 @@ def run_check(pid, tier, seed, replay=None):
                     samples.append(dict(oracle=ostage, family=family, input=show_input(ls[len(ls) // 2]), verdict=outs[len(ls) // 2][:200]))
             # B
             if model_available:
-                for family, stage, nq, nt in runs:
+                for run_ in runs:
+                    family, stage, nq, nt = run_[:4]
+                    proj = PROJ[run_[4]] if len(run_) > 4 else (lambda x: x)
                     ls = inputs_for(family, nq, nt, stage)
-                    io = run_lines("impl", stage, ls)
-                    mo = run_lines("model", stage, ls)
+                    io = [proj(x) for x in run_lines("impl", stage, ls)]
+                    mo = [proj(x) for x in run_lines("model", stage, ls)]
                     evaluations += len(ls)
                     for l, a, b in zip(ls, io, mo):
                         cls = a.split(" ", 1)[0][:8] if a else "empty"
@@ -531,7 +544,7 @@ def main():
     if not args:
         print("usage: check <ID> [--tier quick|thorough] [--replay FILE] | check --setup"); sys.exit(2)
     if args[0] == "--setup":
-        st = build_all(verbose=True)
+        st = build_all(verbose=True, race=True)
         ok = st["gen"] and st["coq"] and st["extract"] and st["harness"] and st["bin"]
         print("SETUP-OK" if ok else "SETUP-FAILED")
         sys.exit(0 if ok else 1)
